@@ -55,7 +55,7 @@ var properties = map[string]Property{
 	},
 	"C01": {
 		Level: "other",
-		Rules: []string{"N-FORWARD", "N-PRESENCE", "N-KEYFLOW", "N-WALK", "N-VGSUM", "N-HEAD", "N-FUNCALL", "B-CHAIN", "O-SEQ", "O-LIFO", "O-MAPRANGE", "O-KEYSOURCE", "I-EXACT", "I-RANGE", "V-SELECT", "V-BOOL", "V-INPUT-PURE", "L-CLASS", "P-POST-NONEMPTY", "R-ITER-STABLE", "N-ENTRY", "G-IMPORTS"},
+		Rules: []string{"N-FORWARD", "N-PRESENCE", "N-KEYFLOW", "N-WALK", "N-VGSUM", "N-HEAD", "N-FUNCALL", "B-CHAIN", "O-SEQ", "O-LIFO", "O-MAPRANGE", "O-KEYSOURCE", "I-EXACT", "I-RANGE", "V-SELECT", "V-BOOL", "V-INPUT-PURE", "L-CLASS", "P-POST-NONEMPTY", "R-ITER-STABLE", "N-ENTRY", "N-APPLY", "G-IMPORTS"},
 		Explanation: "Decided: structural NECESSARY conditions of the step-by-step definition, one group per clause of the statement — name: the stored member name reaches the lookup unchanged and presence is decided by comma-ok lookups, so a null member is a member (N-KEYFLOW, N-PRESENCE); every step hands the next step the same root, the caller's sink and exactly the child it selected, and the chain builder links every step behind the previous one, member nodes of a multi-name selector included (N-FORWARD, B-CHAIN, N-WALK); wildcard / multi-name / union loops are complete, in written resp. sorted-key order, over a list nobody overwrites meanwhile (O-SEQ, O-MAPRANGE, O-KEYSOURCE, R-ITER-STABLE); recursive descent is pre-order (last-in-first-out pop, children pushed in reverse, parent before children) and skips no container (O-LIFO); index and slice subscripts produce exactly Python's indices on every zone partition (I-EXACT, I-RANGE); the filter hands member i on exactly when its verdict is true, the verdict lists have length 1 or the member count, and the logical nodes compute AND / OR / NOT member by member over operands that see the same members (V-SELECT, L-CLASS, V-BOOL, V-INPUT-PURE); function nodes are called once with the selected value(s), and the argument chain's value-group flag is summarised before it is consulted (N-FUNCALL, N-VGSUM); a step that reports success has emitted at least one value and a step that emitted nothing reports an error (P-POST-NONEMPTY). NOT decided — and not decidable by this family of technique: that the returned sequence EQUALS the one the definition gives for every path and document; that needs an executable reference and comparison of values. A violation of one of these conditions breaks C01; their conjunction does not imply it (e.g. what a comparison considers equal, the text of error results, anything only a particular document shows).",
 		Assumptions: []string{"the conditions listed are necessary, not sufficient, for C01; see the per-clause properties C07–C11, C14 for what each rule covers"},
 	},
@@ -67,7 +67,7 @@ var properties = map[string]Property{
 	},
 	"C16": {
 		Level:       "other",
-		Rules:       []string{"N-KEYFLOW", "TV-IDENT", "U-BYTES", "R-GLOBALS", "U-DECODE", "G-IMPORTS"},
+		Rules:       []string{"N-KEYFLOW", "TV-IDENT", "U-BYTES", "R-GLOBALS", "U-DECODE", "W-QUOTES", "G-IMPORTS"},
 		Explanation: "Decided (structural part): the key of every member lookup during evaluation is the stored member name of a single-name step or a key of the object itself (no conversion, concatenation, slicing or call result on the way), and the constructor stores the name it is given verbatim; the identifier rules the running parser implements (character classes, escape alternatives) are those of the published grammar; the hand-written text transducers do not mix byte and character units (no byte-wise copy driven by a rune-wise range); the unescape routines consult no mutable package-level state. Not decided: that the three unescape routines invert JSON-style escaping for every string (a string-transducer equivalence).",
 	},
 	"C17": {
@@ -77,7 +77,7 @@ var properties = map[string]Property{
 	},
 	"C18": {
 		Level:       "other",
-		Rules:       []string{"W-SPACE", "W-CAPTURE", "N-NUMCONV", "ST-FRAMES", "ST-BALANCE", "ST-TYPES", "R-GLOBALS", "U-DECODE", "G-IMPORTS"},
+		Rules:       []string{"W-SPACE", "W-CAPTURE", "N-NUMCONV", "ST-FRAMES", "ST-BALANCE", "ST-TYPES", "R-GLOBALS", "U-DECODE", "W-QUOTES", "G-IMPORTS"},
 		Explanation: "Decided (structural part): on the grammar the generated parser actually runs (reconstructed by the decompiler), optional blanks are accepted on the stated side(s) of every occurrence of `[`, `]`, `,`, `:`, the seven comparison tokens, `||`, `&&`, `!`, `?(`, `(`, `)` and around a whole path; no capture whose text becomes a number, name, function name or regular expression can contain optional blanks; integers and numbers are converted in base 10 / as 64-bit floats from the unmodified text (so `+` and leading zeros are harmless); the text conversions consult no mutable package-level state; every spelling the grammar derives — in particular a path starting with a bracket instead of `$` — leaves the action value stack well-typed and balanced, so no spelling fails with an internal error. Not decided: quote-style equivalence and `.x` vs `['x']` beyond 'same constructor', `$`-omission behaviour.",
 	},
 	"C03": {
@@ -88,7 +88,7 @@ var properties = map[string]Property{
 	},
 	"C08": {
 		Level:       "other",
-		Rules:       []string{"N-FORWARD", "N-DEEPEST", "O-SEQ", "O-LIFO", "B-CHAIN", "N-PRESENCE", "N-WALK", "R-ITER-STABLE", "N-GETSET", "N-ENTRY", "G-IMPORTS"},
+		Rules:       []string{"N-FORWARD", "N-DEEPEST", "O-SEQ", "O-LIFO", "B-CHAIN", "N-PRESENCE", "N-WALK", "R-ITER-STABLE", "N-GETSET", "N-ENTRY", "N-APPLY", "G-IMPORTS"},
 		Explanation: "Decided (structural part): every call of a step (retrieve on the next node, or one of the retrieve-family helpers) passes the caller's own root and the caller's own sink (or a private pooled sink), the emitters hand the next step exactly the value they would emit themselves (container[key] of their parameters); fan-out loops are complete and leave only through their loop condition, branch errors are only accumulated through the deepest-error helper; the chain builder re-assigns its link target from the current step on every iteration. Also decided: every per-node setting the parser applies to a node that may be a multi-name selector — next link, texts, accessor flag — also reaches the member nodes the selector evaluates into the same result list, with the same value and under no flag evaluation does not use for that edge (N-WALK; this is where the `$..['a','b'].c` defect was found, now fixed); presence of a member is decided by comma-ok lookups, so a null member is a member (N-PRESENCE); no step walks a list that the following steps can overwrite (R-ITER-STABLE). Not decided: the relational equality of the three retrievals as such.",
 	},
 	"C09": {
@@ -109,27 +109,27 @@ var properties = map[string]Property{
 	},
 	"C12": {
 		Level:       "other",
-		Rules:       []string{"N-ACCESS", "N-ACCFLAG", "N-PRESENCE", "N-WALK", "N-CTOR", "N-GETSET", "G-IMPORTS"},
+		Rules:       []string{"N-ACCESS", "N-ACCFLAG", "N-PRESENCE", "N-WALK", "N-CTOR", "N-GETSET", "N-APPLY", "G-IMPORTS"},
 		Explanation: "Decided (structural part): each of the three emission sites has one plain and one accessor branch selected by the node's own flag, and the accessor's Get re-reads exactly the location (or value) the plain branch emits; the flag-clearing pass sets the flag on every node it walks over and covers every retrieve edge that emits into the parent's sink (inner identifiers of a multi-name selector, its union twin); every place that attaches a chain as function argument or filter operand clears the flag on it. Not decided: equality of the two result sequences as such.",
 	},
 	"C13": {
 		Level:       "other",
-		Rules:       []string{"N-ACCESS", "N-FORWARD", "R-SET-USERONLY", "N-PRESENCE", "N-WALK", "N-CTOR", "G-IMPORTS"},
+		Rules:       []string{"N-ACCESS", "N-FORWARD", "R-SET-USERONLY", "N-PRESENCE", "N-WALK", "N-CTOR", "N-APPLY", "G-IMPORTS"},
 		Explanation: "Decided (large structural part): at the map and list emission sites Get is the single expression container[key] and Set is exactly one assignment container[key] = value, both on the very container and key variables (captured once, never re-assigned) that the plain branch reads; at the any-value site Get returns the captured value and Set is nil; the value forwarded to the next step is the emitted one; the library never calls the closures it hands out. Not decided: that the accessor at result index i belongs to the location a specification predicts.",
 	},
 	"C14": {
 		Level:       "other",
-		Rules:       []string{"N-FUNCALL", "N-FORWARD", "P-RTERR", "O-POOL", "B-CHAIN", "P-RESTRICT", "N-WALK", "N-GETSET", "N-HEAD", "N-VGSUM", "V-PARAM-ALWAYS", "G-IMPORTS"},
+		Rules:       []string{"N-FUNCALL", "N-FORWARD", "P-RTERR", "O-POOL", "B-CHAIN", "P-RESTRICT", "N-WALK", "N-GETSET", "N-HEAD", "N-VGSUM", "V-PARAM-ALWAYS", "N-APPLY", "G-IMPORTS"},
 		Explanation: "Decided (structural part): a function node calls its user function at exactly one site, outside loops; the filter function receives the node's current value; the aggregate receives the list of its private pooled sink, or element 0 as an array only under the parameter's value-group test being false and a successful checked assertion; the function's result is what is forwarded; ErrorFunctionFailed is built only when that call returned an error; the chain builder keeps its link target on the step just processed (so a step after an aggregate is linked behind the aggregate). Not decided: that the value-group flag is correct for the chain (the live `$.a.*.f()` defect), . Also decided: function names are looked up in the filter table first, then the aggregate table, else ErrorFunctionNotFound.",
 	},
 	"C15": {
 		Level:       "other",
-		Rules:       []string{"N-KIND", "P-NILGUARD", "P-RTERR", "N-DEEPEST", "N-WALK", "N-GETSET", "R-ERR-PURE", "G-IMPORTS"},
+		Rules:       []string{"N-KIND", "P-NILGUARD", "P-RTERR", "N-DEEPEST", "N-WALK", "N-GETSET", "R-ERR-PURE", "N-DELEGATE", "G-IMPORTS"},
 		Explanation: "Decided (structural part): every type-mismatch error is built under failed type tests of the node's current value, its expected-kind text is in one-to-one correspondence with the set of container kinds the node navigates, its found text is a constant for nil and reflect.TypeOf(current).String() of that same value under a nil guard, and it references the raising node's own descriptor; inside fan-out loops the surviving error is chosen only by the deepest-error helper. Not decided: which of several branch errors is reported (depends on text lengths / traversal order).",
 	},
 	"C20": {
 		Level:       "other",
-		Rules:       []string{"P-SENTINEL", "P-IFACE-EQ", "P-ASSERT", "P-NILGUARD", "N-KIND", "V-ACCEPT", "V-VALIDATED", "N-ENTRY", "G-IMPORTS"},
+		Rules:       []string{"P-SENTINEL", "P-IFACE-EQ", "P-ASSERT", "P-NILGUARD", "N-KIND", "V-ACCEPT", "V-VALIDATED", "N-ENTRY", "N-DELEGATE", "G-IMPORTS"},
 		Explanation: "Decided (large structural part): the absence marker has a package-private named comparable type; every interface ==/!= reachable during evaluation has a nil / comparable-concrete operand or operands validated to a JSON scalar type; every unchecked type assertion is justified; navigation only type-tests for the two JSON container types and reports other values by reflect type under a nil guard; validators blank every foreign type. Not decided: reflect.DeepEqual's behaviour on exotic values, what user functions do with opaque values.",
 	},
 	"C19": {
